@@ -413,6 +413,97 @@ func c05FailParks(c *Ctx, m *Module) {
 		}
 		r.Check("C05.fail-parks", "rotate1/mode off parks the file", m.Pos(ret.Pos()), preceded, "fail(ErrDisabled) before returning")
 	}
+	// who may unmap: (*mappedFile).close is called only where the mapping is private to the caller
+	// (a mapping being built or superseded inside openMapped / newCounter / extend), in the
+	// deferred clean-ups of rotate1 and newCounter1 (after the counters were invalidated: C03),
+	// and in the closer returned by Open. A close anywhere else — the failure path of a
+	// rotation, say — unmaps memory that counters still point into.
+	{
+		mclose := m.Func("internal/counter", "mappedFile.close")
+		allowed := map[string]string{
+			"internal/counter.openMapped":                           "a mapping being built",
+			"(*internal/counter.mappedFile).newCounter":             "a superseded private re-mapping",
+			"(*internal/counter.mappedFile).extend":                 "a re-mapping that failed",
+			"(*internal/counter.file).rotate1":                      "deferred clean-up only",
+			"(*internal/counter.file).newCounter1":                  "deferred clean-up only",
+			"internal/counter.Open":                                 "the closer handed to the application",
+		}
+		deferredOnly := map[string]bool{"(*internal/counter.file).rotate1": true, "(*internal/counter.file).newCounter1": true}
+		n := 0
+		for _, cs := range m.callersOf(mclose) {
+			n++
+			top := fnameTop(cs.Parent())
+			_, ok := allowed[top]
+			detail := allowed[top]
+			if ok && deferredOnly[top] {
+				// the call sits in a function literal that is run by a defer of the top-level function
+				lit := cs.Parent()
+				isDeferred := false
+				if lit.Parent() != nil {
+					for _, in := range instrsOf(lit.Parent()) {
+						if d, isD := in.(*ssa.Defer); isD && funcValue(d.Call.Value) == lit {
+							isDeferred = true
+						}
+					}
+				}
+				if _, isD := cs.(*ssa.Defer); isD {
+					isDeferred = true
+				}
+				// … or the literal is the clean-up the function RETURNS for its caller to run after
+				// unlocking (newCounter1's second result)
+				if lit.Parent() != nil && !isDeferred {
+					for _, in := range instrsOf(lit.Parent()) {
+						mc, isMC := in.(*ssa.MakeClosure)
+						if !isMC || mc.Fn != lit {
+							continue
+						}
+						seen := map[ssa.Value]bool{}
+						var flows func(v ssa.Value, depth int) bool
+						flows = func(v ssa.Value, depth int) bool {
+							if seen[v] || depth > 4 {
+								return false
+							}
+							seen[v] = true
+							for _, u := range referrers(v) {
+								switch x := u.(type) {
+								case *ssa.Return:
+									return true
+								case *ssa.Store:
+									// stored into a named result, whose value is what is returned
+									if a, isA := x.Addr.(*ssa.Alloc); isA && x.Val == v {
+										for _, u2 := range referrers(a) {
+											if ld, isLd := u2.(*ssa.UnOp); isLd && flows(ld, depth+1) {
+												return true
+											}
+										}
+									}
+								case *ssa.Phi:
+									if flows(x, depth+1) {
+										return true
+									}
+								case *ssa.ChangeType:
+									if flows(x, depth+1) {
+										return true
+									}
+								}
+							}
+							return false
+						}
+						if flows(mc, 0) {
+							isDeferred = true
+						}
+					}
+				}
+				ok = isDeferred
+				if !ok {
+					detail = "not in the deferred clean-up"
+				}
+			}
+			r.Check("C05.fail-parks", "unmap site in "+fname(cs.Parent()), m.Pos(cs.Pos()), ok,
+				"(*mappedFile).close may be called only where no counter can still point into the mapping: "+detail)
+		}
+		r.Check("C05.fail-parks", "unmap sites enumerated", m.Pos(mclose.Pos()), n >= 6, fmt.Sprintf("%d", n))
+	}
 	// openMapped: deferred cleanup closes m when err != nil
 	om := m.Func("internal/counter", "openMapped")
 	okDefer := false
